@@ -702,6 +702,51 @@ func (m *c15Machine) exportJSON() json.RawMessage {
 // applyReimport takes the mt module through its own genesis. The genesis carries every class, token and balance
 // (sequences are rebuilt from the counts), so the ledger stays as it is: every clause of check() holds on the restored
 // state, and whatever is generated afterwards must be new.
+// c15WrapEdit adds 2^63 to the balances of two holders of one token (nil if no token has two holders below 2^63).
+func c15WrapEdit(_ string, exported json.RawMessage) json.RawMessage {
+	var g map[string]interface{}
+	if json.Unmarshal(exported, &g) != nil {
+		return nil
+	}
+	type ref struct {
+		b map[string]interface{}
+	}
+	byTok := map[string][]ref{}
+	var order []string
+	owners, _ := g["owners"].([]interface{})
+	for _, o := range owners {
+		om, _ := o.(map[string]interface{})
+		denoms, _ := om["denoms"].([]interface{})
+		for _, d := range denoms {
+			dm, _ := d.(map[string]interface{})
+			bals, _ := dm["balances"].([]interface{})
+			for _, b := range bals {
+				bm, _ := b.(map[string]interface{})
+				amt, ok := new(big.Int).SetString(fmt.Sprint(bm["amount"]), 10)
+				if !ok || amt.BitLen() > 63 {
+					continue
+				}
+				k := fmt.Sprint(dm["denom_id"]) + "/" + fmt.Sprint(bm["mt_id"])
+				if len(byTok[k]) == 0 {
+					order = append(order, k)
+				}
+				byTok[k] = append(byTok[k], ref{bm})
+			}
+		}
+	}
+	for _, k := range order {
+		if rs := byTok[k]; len(rs) >= 2 {
+			for _, r := range rs[:2] {
+				amt, _ := new(big.Int).SetString(fmt.Sprint(r.b["amount"]), 10)
+				r.b["amount"] = new(big.Int).Add(amt, new(big.Int).Lsh(big.NewInt(1), 63)).String()
+			}
+			out, _ := json.Marshal(g)
+			return out
+		}
+	}
+	return nil
+}
+
 func (m *c15Machine) applyReimport() error {
 	zeroSupply, zeroBal, maxSupply, handed, empty := false, false, false, false, false
 	for _, d := range m.denoms {
@@ -716,7 +761,21 @@ func (m *c15Machine) applyReimport() error {
 		}
 	}
 	multi := m.holding() >= 2
+	// every other restart first offers the module a hand-edited file in which two holders of one token each got 2^63 more:
+	// the amounts of that token then add up to its declared supply only modulo 2^64. The import has to refuse it (the
+	// export is then imported as it is); a module that accepts it holds balances that exceed the supply
+	if m.nReimport%2 == 1 {
+		m.c.GenesisEdit = c15WrapEdit
+	}
+	ei, er := m.c.EditedImports, m.c.EditedRefused
 	before, stage, err := m.c.Reimport("mt")
+	m.c.GenesisEdit = nil
+	if m.c.EditedImports > ei {
+		return pbt.Failf("C15/genesis-with-wrapping-balances-imported", "the mt module imported a genesis in which the balances of a token exceed its supply by 2^64 (the sums agree only modulo 2^64)\nexported: %s", before)
+	}
+	if m.c.EditedRefused > er {
+		m.cnt["genesis-with-wrapping-balances-refused"]++
+	}
 	if err != nil {
 		return pbt.Failf("C15/reimport-"+stage, "mt genesis round trip with %d classes / %d tokens: %v\nexported: %s", len(m.denoms), len(m.mts), err, before)
 	}
